@@ -645,4 +645,3 @@ func (ac *authCase) degenerateDiag() {
 		ac.c.Count("diag_degenerate_ed25519_key_rejected", 1)
 	}
 }
-
